@@ -108,8 +108,9 @@ def _scan_describe(r):
 
 
 def _scan_size(r):
-    if r["t"] == "sel":
-        return len(r["ents"]) * 1000 + sum(len(e[0]) for e in r["ents"])
+    if r["t"] == "sel":      # witness order: few entries, an ordinary ident in every name, short names
+        odd = sum(1 for e in r["ents"] if "/08.bai" not in _s(e[0]))
+        return len(r["ents"]) * 1000 + odd * 300 + sum(len(e[0]) for e in r["ents"])
     return len(r.get("fn", r.get("arg", [])))
 
 
@@ -234,8 +235,10 @@ def _rawlog(ctx):
     t0 = time.time()
     # S => P, pure TLC
     mc = {}
+    deep = "7" if ctx.thorough else ""          # thorough: all sequences <= 7
     for v, expect in (("code", False), ("fixed", False), ("doc", True)):
-        r = tlc.run("MC_RawLog", "MC_RawLog_%s.cfg" % v, workers=4, heap="4g", timeout=600, tag="MC_RawLog_%s-%d" % (v, os.getpid()))
+        cfg = "MC_RawLog_%s%s.cfg" % (v, deep if v != "doc" else "")
+        r = tlc.run("MC_RawLog", cfg, workers=4, heap="4g", timeout=600, tag="MC_RawLog_%s-%d" % (v, os.getpid()))
         mc[v] = r
         if bool(r["violated"]) != expect and not expect:
             raise tlc.TlcFailure("MC_RawLog_%s.cfg: %s violated:\n%s" % (v, r["violated"], r["out"][-2500:]))
